@@ -138,9 +138,14 @@ class Polyline3D(Base2DIn3D):
         if len(self.vertices) == 3:
             return self  # Polyline3D cannot have fewer than 3 vertices
         new_vertices = [self.vertices[0]]  # first vertex is always ok
+        skip = 0  # track the number of vertices being skipped/removed
+        # loop through vertices and remove all cases of colinear verts
         for i, _v in enumerate(self.vertices[1:-1]):
-            if (self[i] - _v).cross(self[i + 2] - _v).magnitude >= tolerance:
+            if (self[i - skip] - _v).cross(self[i + 2] - _v).magnitude >= tolerance:
                 new_vertices.append(_v)
+                skip = 0
+            else:
+                skip += 1
         new_vertices.append(self[-1])  # last vertex is always ok
         _new_poly = Polyline3D(new_vertices)
         self._transfer_properties(_new_poly)
